@@ -837,7 +837,14 @@ func (vc *VC) valEq(st *State, a, b Val) string {
 		vc.unsupported("pointer comparison")
 		return vc.sc.fresh("unk", sortBool)
 	case KSlice:
-		// only comparison with nil is legal
+		// in Go only comparison with nil is legal; spec expressions (and struct equality in specs)
+		// compare two slice values by their headers: same backing array, window and capacity
+		if b.K == KSlice && b.Sl[0] != "0" && a.Sl[0] != "0" {
+			return and(eq(a.Sl[0], b.Sl[0]), eq(a.Sl[1], b.Sl[1]), eq(a.Sl[2], b.Sl[2]), eq(a.Sl[3], b.Sl[3]))
+		}
+		if a.Sl[0] == "0" && b.K == KSlice {
+			return eq(b.Sl[0], "0")
+		}
 		return eq(a.Sl[0], "0")
 	case KIface:
 		if b.K == KIface {
